@@ -60,7 +60,20 @@ class Check:
         pass
 
     # ------------------------------------------------------------------ generation
+    def corpus_list(self) -> T.List[str]:
+        p = os.path.join(E.VERIF_DIR, 'checks', 'c06_corpus_ok.txt')
+        if not os.path.exists(p):
+            return []
+        with open(p) as f:
+            return [l.strip() for l in f if l.strip() and not l.startswith('#')]
+
     def generate(self, rng: random.Random, tier: str, index: int) -> T.Dict[str, T.Any]:
+        corpus = self.corpus_list() if tier != 'quick' else []
+        if corpus and rng.random() < 0.3:
+            hist_pool = ['fresh', 'reconfigure', 'wipe', 'fresh']
+            variants = [{'hashseed': rng.choice([1, 2, 17, rng.randrange(1, 4000000000)]), 'envperm': rng.randrange(1 << 30), 'pad': rng.choice([0, 100, 5000]),
+                         'lsseed': rng.choice([0, rng.randrange(1, 1 << 30)]), 'history': rng.choice(hist_pool)} for _ in range(4)]
+            return {'kind': 'c06', 'corpus': corpus[rng.randrange(len(corpus))], 'opts': {}, 'variants': variants, 'backdate': 3600}
         spec = G.gen_project(rng, 'big')
         extras = {
             'pkgconfig': rng.random() < 0.7,
@@ -89,6 +102,9 @@ class Check:
 
     # ------------------------------------------------------------------ project
     def render(self, sc: T.Dict[str, T.Any], sd: str) -> T.List[str]:
+        if sc.get('corpus'):
+            shutil.copytree(os.path.join(E.repo_dir(), 'test cases', 'common', sc['corpus']), sd, symlinks=True)
+            return ['*']
         G.render(sc['spec'], sd)
         ex = sc['extras']
         ents = sc['spec']['ents']
@@ -200,8 +216,22 @@ class Check:
             for n in sorted(os.listdir(info)):
                 if n.endswith('.json'):
                     put(os.path.join('meson-info', n))
-        for rel in cfg_outputs:
-            put(rel)
+        if cfg_outputs == ['*']:
+            # corpus project: every file a configuration leaves in the build directory outside meson's own bookkeeping
+            for dp, dn, fn in os.walk(bd):
+                reld = os.path.relpath(dp, bd)
+                if reld.split(os.sep)[0] in ('meson-private', 'meson-logs', 'meson-info'):
+                    dn[:] = []
+                    continue
+                for n in sorted(fn):
+                    rel = os.path.normpath(os.path.join(reld, n))
+                    if rel in ('compile_commands.json', '.gitignore', '.hgignore', 'CACHEDIR.TAG', 'build.ninja') or n.endswith('~'):
+                        continue
+                    if not os.path.islink(os.path.join(dp, n)):
+                        put(rel)
+        else:
+            for rel in cfg_outputs:
+                put(rel)
         for sub in ('meson-private', 'meson-uninstalled'):
             d = os.path.join(bd, sub)
             if os.path.isdir(d):
@@ -245,7 +275,7 @@ class Check:
         first_known: T.Optional[T.Dict[str, T.Any]] = None
         known_sigs: T.List[str] = []
         keys: T.List[str] = []
-        projhash = prng.short(sc['spec'])
+        projhash = prng.short(sc.get('spec') or sc.get('corpus'))
         # ---- (b) no-change reconfigure after a clock jump
         # clock jump: every file of the source and build trees moves back by the same offset, so all
         # relations between timestamps (e.g. a copied file carrying its source's mtime) are preserved
@@ -270,7 +300,7 @@ class Check:
             if after.get('build.ninja') != base.get('build.ninja'):
                 viols.append(R.violation('nochange-differs', 'build.ninja changed over a no-change reconfigure: ' + self.first_diff(base['build.ninja'], after.get('build.ninja', b'')),
                                          'nochange-differs:build.ninja'))
-            for rel in sorted(base):
+            for rel in sorted(base) if not sc.get('corpus') else []:
                 if rel == 'build.ninja' or rel.startswith('meson-info') or rel.endswith(('.pc', '.cmake')) or rel == 'c06_cmd.h':
                     continue   # (configure_file(command:) output is written by the user's command itself, not by meson)
                 if after.get(rel) == base[rel] and os.stat(os.path.join(bd, rel)).st_mtime_ns != before_m.get(rel):
@@ -328,7 +358,7 @@ class Check:
                 known_sigs.append(v['signature'])
                 if first_known is None:
                     first_known = v
-        reorderable = (sc['extras'].get('tests', 0) >= 1) or sc['extras'].get('wraps', 0) >= 2
+        reorderable = bool(sc.get('corpus')) or (sc['extras'].get('tests', 0) >= 1) or sc['extras'].get('wraps', 0) >= 2
         basekw = dict(faults=faults, probes=probes, nontrivial=len(set(settings)) >= 2 and reorderable, distinct_keys=keys, distinct_key=prng.short(keys),
                       interleavings=[prng.short(list(s)) for s in settings], steps=len(sc['variants']) + 2)
         if first_new is not None:
@@ -425,6 +455,8 @@ class Check:
                     c = copy.deepcopy(sc)
                     c['variants'][i][key] = simple
                     yield c
+        if sc.get('corpus'):
+            return
         ents = sc['spec']['ents']
         for i in range(len(ents) - 1, -1, -1):
             n = ents[i]['name']
